@@ -31,7 +31,7 @@ func (c18) ID() string    { return "C18" }
 func (c18) Level() string { return "fault_enumeration" }
 func (c18) Rule() string {
 	return "for every pair (previous state, new state) out of {no file, 1 extra binding, 10, 120 (thorough 400) bindings, a value just under the length limit, functions and strings with newlines} a child process auto-loads ./.gr, evaluates the new program and auto-saves; " +
-		"it is killed with SIGKILL (build-tag hook, VERIF_CRASH_AT) at EVERY enumerated crash point: before and after creating the temporary file, after each written binding k = 1..n, after the last write, after the rename; and a write failure (injected ENOSPC, VERIF_FAIL_AT) is forced at EVERY write position k. " +
+		"it is killed with SIGKILL (build-tag hook, VERIF_CRASH_AT) at EVERY enumerated crash point: before and after creating the temporary file, after each written binding k = 1..n, after the last write, after the rename; and a write failure (injected ENOSPC, VERIF_FAIL_AT) is forced at EVERY write position k; and the operating system itself refuses writes: the child lowers RLIMIT_FSIZE (SIGXFSZ ignored, EFBIG) to 13 limits around the buffer boundaries and the size of the new file - a save that does not fit must leave the previous file, one that fits must produce the complete new one. " +
 		"After each fault the parent compares the bytes of ./.gr with the complete previous file and the complete new file (taken from an uninterrupted twin run), and starts a fresh auto-loading child whose globals must equal the previous or the new state; a run that changes nothing must not touch the file. " +
 		"non-trivial = fault whose point was really reached (trace fd) ; distinct = distinct (state pair, fault point, k)."
 }
